@@ -42,6 +42,7 @@ def run(eng, rep) -> None:
     rep.rule("R06.2", "each emit-able scalar type has can_decode_signal_as_<T> / can_encode_signal_from_<T>, defined and declared, 6 parameters")
     rep.rule("R06.3", "subscripts of all-constant literal dicts use keys that exist; short integers get a C member type")
     rep.rule("R06.4", "free names of the device templates are bound at the render sites")
+    rep.rule("R06.7", "run-time handlers place the field with their own (start, length) through the bit-field primitive; no symmetric clamp on the encode value path")
     rep.rule("R06.5", "no implicit narrowing below 64 bits between `<< start` and the handler's return")
     rep.rule("R06.6", "signed decoders sign-extend by `length`; the sign-extension shift is guarded where length can equal the width")
     rep.assume("mask table, byte swaps, linear scaling and bitfield_sign_conv's own arithmetic; that the rendered C compiles for every schema")
@@ -99,9 +100,16 @@ def run(eng, rep) -> None:
                 cs = cg.site_of.get(id(get_arg(sig_ctor, None, "signed")))
                 for c in (cs.callees if cs else []):
                     body = norm(prog.functions[c].node, 400)
-                    if ".type.name.startswith('i')" in body or ".type.is_signed()" in body:
+                    if ".type.is_signed()" in body or re.search(r"isinstance\(\w+\.type, (\w+\.)*SignedType\)", body):
                         okS = True
-        rep.check(okS, "R06.1", builder.file, builder.qual, "signed <- %s" % (norm(a, 40) if a is not None else "-"), "signedness of the leaf's own type", "signedness does not derive from the leaf's type")
+                    elif ".type.name.startswith('i')" in body or ".type.name[0] == 'i'" in body:
+                        okS = None
+        if a is not None and (".type.name.startswith('i')" in norm(a, 100) or ".type.name[0] == 'i'" in norm(a, 100)):
+            okS = None
+        if okS is None:
+            rep.violation("R06.1", builder.file, builder.qual, "signed <- %s" % norm(a, 40), "signedness is derived from the first letter of the leaf type's *name*: for an enum leaf that name is the enum's own name, so an enum called e.g. `ignition` is generated as a signed signal (its values with the top bit set decode as negative numbers)")
+        else:
+            rep.check(okS, "R06.1", builder.file, builder.qual, "signed <- %s" % (norm(a, 40) if a is not None else "-"), "signedness of the leaf's own type", "signedness does not derive from the leaf's type")
         for nm, key in (("multiplexer_signal", "mux_signal"),):
             a = A(nm)
             rep.check(a is not None and "%s.extended_data['%s']" % (P, key) in atoms_of(a), "R06.1", builder.file, builder.qual, "%s <- %s" % (nm, norm(a, 50) if a is not None else "-"), "the leaf's own option", "%s is not the leaf's own %s option" % (nm, key))
@@ -226,6 +234,20 @@ def run(eng, rep) -> None:
     # ---- R06.5 / R06.6 (typed AST) -------------------------------------------------------
     r065(eng, rep, tu, fns)
     r066(eng, rep, fns)
+    r067(eng, rep, fns)
+    # shifts computed in a narrower type than the one their value is used in (variable count)
+    from ..front_clang import narrow_shifts
+    for name, ds in sorted(fns.items()):
+        for d in ds:
+            if body_of(d) is None:
+                continue
+            seen_ns = set()
+            for x, w, tq in narrow_shifts(d):
+                if (w, tq) in seen_ns:
+                    continue
+                seen_ns.add((w, tq))
+                rep.violation("R06.5", "plugins/fcp_can_c/templates/can_signal_parser.c", name, "`<<` by a variable count computed in %d-bit int, then widened to %s" % (w, tq),
+                              "the shift is evaluated in a %d-bit integer and only afterwards converted to %s: for counts of %d and more the mask/bit is wrong (signals wider than %d bits)" % (w, tq, w - 1, w))
 
 
 def possible_keys(e: ast.AST):
@@ -318,6 +340,104 @@ def r065(eng, rep, tu, fns) -> None:
                     rep.check(bad is None, "R06.5", "plugins/fcp_can_c/templates/can_signal_parser.c", name, "<< start (%s)" % x.qtype, "kept at 64 bits up to the return",
                               "a field positioned in the 64-bit frame word by `<< start` loses its high bits: %s" % bad)
     rep.floor("R06.5", "`<< start` placements in the C run time", n, 2)
+
+
+def _strip(x):
+    while x is not None and x.kind in ("ImplicitCastExpr", "ParenExpr", "CStyleCastExpr") and x.inner:
+        x = x.inner[-1]
+    return x
+
+
+def _ref(x, name) -> bool:
+    x = _strip(x)
+    return x is not None and x.kind == "DeclRefExpr" and x.get("referencedDecl", {}).get("name") == name
+
+
+def r067(eng, rep, fns) -> None:
+    """Sibling agreement of the run-time handlers: placement parameters reach the bit-field primitive unmodified;
+    range-limiting helpers on the encode value path keep the whole two's complement range."""
+    F = "plugins/fcp_can_c/templates/can_signal_parser.c"
+    CF = "can_signal_parser.c"
+    for name in sorted(fns):
+        m = re.fullmatch(r"can_(encode_signal_from|decode_signal_as)_(\w+)", name)
+        if not m:
+            continue
+        ds = [x for x in fns[name] if body_of(x) is not None]
+        if not ds:
+            continue
+        d = ds[0]
+        b = body_of(d)
+        side, ty = m.group(1), m.group(2)
+        # the primitives are macros: get_bitfield(d, s, l) = ((d) >> (s)) & bitmask(l) ; set_bitfield(d, s, l) = ((uint64_t)d & bitmask(l)) << s
+        op = ">>" if side.startswith("decode") else "<<"
+        shifts = [x for x in cwalk(b) if x.kind == "BinaryOperator" and x.get("opcode") == op and len(x.inner) == 2]
+        by_start = [x for x in shifts if _ref(x.inner[1], "start")]
+        masks = [x for x in cwalk(b) if x.kind == "CallExpr" and _ref(x.inner[0], "bitmask")]
+        mask_len = [x for x in masks if len(x.inner) > 1 and _ref(x.inner[1], "length")]
+        fcalls = [x for x in cwalk(b) if x.kind == "CallExpr" and any(_ref(x.inner[0], pn) for pn in ("set_bitfield_float", "set_bitfield_double"))]
+        uses_start = [x for x in cwalk(b) if x.kind == "DeclRefExpr" and x.get("referencedDecl", {}).get("name") == "start"]
+        if fcalls:
+            args = fcalls[0].inner[1:]
+            okp = len(args) >= 3 and _ref(args[1], "start") and _ref(args[2], "length")
+            rep.check(okp, "R06.7", F, name, "set_bitfield_*(_, start, length)", "field placed by the handler's own start/length, unmodified",
+                      "the bit-field primitive is not called with the handler's (start, length) unmodified")
+            continue
+        if shifts and masks and any(any(y.kind == "DeclRefExpr" and y.get("referencedDecl", {}).get("name") == "start" for y in cwalk(x.inner[1])) for x in shifts):
+            okp = bool(by_start) and bool(mask_len) and len(mask_len) == len(masks)
+            rep.check(okp, "R06.7", F, name, "(word %s start) & bitmask(length)" % op, "field placed by the handler's own start/length, unmodified",
+                      "the bit-field primitive is not applied to the handler's (start, length) unmodified: the signal is read/written at a different position or width than the layout says")
+            continue
+        # no primitive call
+        byte_gran = [x for x in cwalk(b) if x.kind == "BinaryOperator" and x.get("opcode") in (">>", "/") and any(_ref(y, "start") for y in x.inner[:1]) and len(x.inner) > 1 and _strip(x.inner[1]).kind == "IntegerLiteral" and _strip(x.inner[1]).get("value") in ("3", "8")]
+        sub = [x for x in cwalk(b) if x.kind == "BinaryOperator" and x.get("opcode") in ("&", "%") and any(_ref(y, "start") for y in x.inner[:1])]
+        if byte_gran and not sub:
+            rep.violation("R06.7", F, name, "payload addressed at byte start/8, start%8 unused", "this handler addresses the payload at byte granularity (start >> 3) and drops the bit remainder of the offset, while its siblings use the bit-field primitive: a signal that does not begin on a byte boundary is read from the wrong bits")
+        elif not uses_start and ty == "double":
+            rep.ok("R06.7", F, name, "whole-frame copy (start unused)", "an f64 fills the 8-byte frame: its start is always 0 (advertised subset: <= 64 bits per message)")
+        elif not uses_start:
+            rep.violation("R06.7", F, name, "start unused", "the handler ignores the signal's start bit although the signal need not be at bit 0")
+        else:
+            rep.undecided("R06.7", F, name, "placement", "handler does not use the bit-field primitive; placement not decided")
+    # symmetric clamps on the encode value path
+    roots = [k for k in fns if re.fullmatch(r"can_encode_signal_from_\w+", k)]
+    reach, work = set(), list(roots)
+    while work:
+        k = work.pop()
+        if k in reach:
+            continue
+        reach.add(k)
+        for d in fns.get(k, []):
+            b = body_of(d)
+            if b is not None:
+                for x in cwalk(b):
+                    if x.kind == "DeclRefExpr" and x.get("referencedDecl", {}).get("kind") == "FunctionDecl":
+                        work.append(x["referencedDecl"]["name"])
+    for k in sorted(reach):
+        for d in fns.get(k, []):
+            b = body_of(d)
+            if b is None:
+                continue
+            for st in cwalk(b):
+                if st.kind != "IfStmt" or len(st.inner) < 2:
+                    continue
+                cond = _strip(st.inner[0])
+                if cond is None or cond.kind != "BinaryOperator" or cond.get("opcode") not in ("<", "<="):
+                    continue
+                rhs = _strip(cond.inner[1])
+                if rhs is None or rhs.kind != "UnaryOperator" or rhs.get("opcode") != "-":
+                    continue
+                bound = _strip(rhs.inner[0])
+                if bound is None or bound.kind != "DeclRefExpr":
+                    continue
+                bname = bound.get("referencedDecl", {}).get("name")
+                rets = [r for r in cwalk(st.inner[1]) if r.kind == "ReturnStmt" and r.inner and _strip(r.inner[0]).kind == "UnaryOperator" and _strip(r.inner[0]).get("opcode") == "-" and _ref(_strip(r.inner[0]).inner[0], bname)]
+                if not rets:
+                    continue
+                # the same bound is the upper limit too (value > bound -> bound): symmetric range
+                upper = [s2 for s2 in cwalk(b) if s2.kind == "IfStmt" and _strip(s2.inner[0]).kind == "BinaryOperator" and _strip(s2.inner[0]).get("opcode") in (">", ">=") and _ref(_strip(s2.inner[0]).inner[1], bname)]
+                if upper:
+                    rep.violation("R06.7", F, k, "if (v < -%s) return -%s;  with  if (v > %s) return %s;" % (bname, bname, bname, bname),
+                                  "the value is limited to the symmetric range [-%s, %s] on the encode path: a two's complement field also holds -%s - 1, so the most negative in-range value is encoded as min + 1" % (bname, bname, bname))
 
 
 def r066(eng, rep, fns) -> None:
